@@ -153,14 +153,19 @@ def conforming_history(rng, max_frames=8, snap=True, with_cols=True, with_params
                     if trim(n) not in sh.pts: b.declare_point(n); sh.pts.append(trim(n))
                 else:
                     k = rng.choice([1, 2]); names = [x for x in uniq_names(rng, k, b'nq', False) if x not in sh.pts]
-                    b.pointcol([rand_lit(rng, names, [], 0) for _ in range(sh.nframes)]); sh.pts += names
+                    # ragged supply: frames after the first may hold MORE points than the first one; the first frame fixes the columns
+                    ragged = rng.random() < 0.35
+                    b.pointcol([rand_lit(rng, names + ([b'zzr1', b'zzr2'][:rng.choice([0, 1, 2])] if ragged and f > 0 else []), [], 0) for f in range(sh.nframes)],
+                               'pointcol-ragged' if ragged and sh.nframes > 1 else 'pointcol'); sh.pts += names
             elif sh.chans and sh.nsub:
                 if rng.random() < 0.5:
                     n = uniq_names(rng, 1, b'nc')[0]
                     if trim(n) not in sh.chans: b.declare_analog(n); sh.chans.append(trim(n))
                 else:
                     k = rng.choice([1, 2]); names = [x for x in uniq_names(rng, k, b'nd', False) if x not in sh.chans]
-                    b.analogcol([rand_lit(rng, [], names, sh.nsub) for _ in range(sh.nframes)]); sh.chans += names
+                    ragged = rng.random() < 0.35
+                    b.analogcol([rand_lit(rng, [], names + ([b'zzs1', b'zzs2'][:rng.choice([0, 1, 2])] if ragged and f > 0 else []), sh.nsub) for f in range(sh.nframes)],
+                                'analogcol-ragged' if ragged and sh.nframes > 1 else 'analogcol'); sh.chans += names
         # one more conforming frame after the columns
         if rng.random() < 0.7:
             b.frame(rand_lit(rng, sh.pts, sh.chans, sh.nsub if sh.chans else 0), '-', 'frame-append'); sh.nframes += 1
